@@ -609,7 +609,7 @@ func (g *qgen) genUnionSels(u string, depth int) []Sel {
 	g.feat.UnionFields++
 	members := UnionMembers[u]
 	var sels []Sel
-	if !g.o.NoUnionTypename && rapid.IntRange(0, 2).Draw(g.t, "utypename") == 0 {
+	if g.o.Directives || (!g.o.NoUnionTypename && rapid.IntRange(0, 2).Draw(g.t, "utypename") == 0) {
 		sels = append(sels, Sel{Kind: "field", Name: "__typename"})
 		g.feat.UnionTypename++
 	}
